@@ -145,6 +145,8 @@ def classify(d, case):
             where = "temp-block;%s" % ("several-write-batches" if w[0].get("wb", 1) > 1 else "one-write-batch")
         return "%s(%s;%s)" % (read, what, where)
     if read in ("ExistsInStateOperation", "ExistsKnownOperation"):
+        if arg.endswith(".-1") or arg.endswith(".partial"):
+            return "%s(some-of-a-block-lost)" % read       # some operations of a block exist, others do not
         return "%s(%s)" % (read, "lost" if got == "false" else "phantom")
     if read in ("WriteBlock", "MergeOne", "MergeAllPermanent", "RemoveBlocks", "temps"):
         return "%s(%s)" % (read, "error" if got.startswith("error") else "wrong-result")
